@@ -179,12 +179,23 @@ class BaseOverlay:
                 collection = HandlerCollection(handlers)
             else:
                 collection = curr.plus(handlers)
-            self.reset = HandlerCollection.current.set(collection)
+            self._pairs = handlers
+            HandlerCollection.current.set(collection)
             return collection
 
     def __exit__(self, typ, exc, tb):
         if self.handlers:
-            HandlerCollection.current.reset(self.reset)
+            # Remove our own handlers from whatever is current now, rather than
+            # restoring a snapshot: other overlays may have been entered or
+            # exited since (e.g. global probes deactivated out of order).
+            curr = HandlerCollection.current.get()
+            pairs = list(curr.handler_pairs) if curr is not None else []
+            for pair in self._pairs:
+                if pair in pairs:
+                    pairs.remove(pair)
+            HandlerCollection.current.set(
+                HandlerCollection(pairs) if pairs else None
+            )
 
 
 class Overlay(BaseOverlay):
